@@ -105,7 +105,8 @@ class CtxSession:
 
 
 RACES_QUICK = [('L_setloc_a', 'L_setloc_b'), ('L_setloc_a', 'W_ctx_newloc')]
-RACES_THOROUGH = RACES_QUICK + [('L_setloc_a', 'W_ctx_newloc', 'L_setloc_b'), ('L_setloc_a', 'W_ctx', 'W_ctx_newloc')]
+# (three-thread races made the thorough tier run longer than 40 minutes; the two-thread races with more schedules)
+RACES_THOROUGH = RACES_QUICK + [('L_setloc_a', 'W_ctx')]
 
 
 def concurrent_changes(run):
@@ -121,8 +122,8 @@ def check(run, replay_path=None):
     concurrent_changes(run)
     res = run_tlc('ContextMC', 'Context_mc.cfg', coverage=True, timeout=1800)
     run.add_tlc(res, ['SetLocation', 'SetContextState'])
-    num = run.pick(150, 1000)     # (a session costs about half a second: 4000 did not finish within 50 minutes on a busy machine)
-    pool = run.pick(800, 12000)
+    num = run.pick(150, 600)      # (4000 sessions from a pool of 12000 did not finish within 50 minutes)
+    pool = run.pick(800, 4000)
     res = run_tlc('ContextSim', 'Context_sim.cfg', workers=1, simulate=f'num={pool}', depth=16, seed=run.seed)
     run.add_tlc(res)
     behs = json_lines(res.stdout, 'BEH')
